@@ -258,6 +258,13 @@ def inherited(w, p2, db, dialect, o2, under):
     for f in _FCACHE[prop0]:
         if f.matches(v):
             return "inherits:" + f.id
+    if prop0 == "C01":
+        # C04 files the same symptoms of window programs under its own id
+        if "C04" not in _FCACHE:
+            _FCACHE["C04"] = core.load_findings("C04")
+        for f in _FCACHE["C04"]:
+            if f.matches(dict(v, property="C04")):
+                return "inherits:" + f.id
     return "inherits:none:" + relcheck.shape_of(rp)[:120]
 
 
